@@ -62,7 +62,7 @@ package rosmar
 // collection.go: reads
 
 //@ fn (*Collection).getRaw
-//@   modular in=Update,subdocWrite
+//@   modular in=Update,subdocWrite,GetRaw
 //@   variant tx q=tx
 //@   variant pool q=pool
 //@   let r = old(doc(c.id, key))
@@ -74,6 +74,7 @@ package rosmar
 //@   mustfail [C01:getRaw.found]  err != nil
 //@
 //@ fn (*Collection).exists
+//@   modular in=Exists
 //@   variant tx q=tx
 //@   variant pool q=pool
 //@   let r = old(doc(c.id, key))
@@ -89,9 +90,69 @@ package rosmar
 //@   ensures [C01,C11:GetExpiry.frame]   db == old(db) && stmtsScoped(c.id)
 
 // ---------------------------------------------------------------------------------------------------------------
+// Public wrappers: each passes its arguments to the function that carries the contract and returns that function's
+// results (a swapped argument, a dropped CAS or a substituted constant is refuted here).
+
+//@ fn (*Collection).Exists
+//@   requires DocInv(doc(c.id, key))
+//@   ensures [C01,C05:Exists.delegates] count("call:Collection.exists") == 1 && callarg("Collection.exists", 0) == c && callarg("Collection.exists", 2) == key && exists == callret("Collection.exists", 0) && err == callret("Collection.exists", 1)
+//@   ensures [C01:Exists.frame] db == old(db)
+//@ fn (*Collection).GetRaw
+//@   requires DocInv(doc(c.id, key))
+//@   ensures [C01,C05:GetRaw.delegates] count("call:Collection.getRaw") == 1 && callarg("Collection.getRaw", 0) == c && callarg("Collection.getRaw", 2) == key && val == callret("Collection.getRaw", 0) && cas == callret("Collection.getRaw", 1) && err == callret("Collection.getRaw", 3)
+//@   ensures [C01:GetRaw.frame] db == old(db)
+//@ fn looksLikeJSON
+//@   modular in=AddRaw
+//@ fn (*Collection).AddRaw
+//@   requires DocInv(doc(c.id, key)) && HlcInv(doc(c.id, key)) && IntOK(doc(c.id, key))
+//@   requires !isnull(val)
+//@   ensures [C01,C06,C14:AddRaw.delegates] count("call:Collection.add") == 1 && callarg("Collection.add", 0) == c && callarg("Collection.add", 1) == key && callarg("Collection.add", 2) == exp && callarg("Collection.add", 3) == val && callarg("Collection.add", 4) == callret("looksLikeJSON", 0) && callarg("looksLikeJSON", 0) == val && added == callret("Collection.add", 0) && err == callret("Collection.add", 1)
+//@ fn (*Collection).Add
+//@   variant bytes val=bytes
+//@   variant json val=json
+//@   requires DocInv(doc(c.id, key)) && HlcInv(doc(c.id, key)) && IntOK(doc(c.id, key))
+//@   requires !isnull(rawof(val))
+//@   ensures [C01,C06,C14:Add.delegates] count("call:Collection.add") <= 1 && (count("call:Collection.add") == 1 ==> callarg("Collection.add", 0) == c && callarg("Collection.add", 1) == key && callarg("Collection.add", 2) == exp && callarg("Collection.add", 3) == rawof(val) && callarg("Collection.add", 4) && added == callret("Collection.add", 0) && err == callret("Collection.add", 1))
+//@   ensures [C01,C06:Add.encode-error] count("call:Collection.add") == 0 ==> err != nil && !added && db == old(db)
+//@ fn (*Collection).Set
+//@   modular
+//@   flag modifies=db
+//@   ensures [C01:Set.err-unchanged] err != nil ==> db == old(db)
+//@   nullable opts
+//@   variant bytes val=bytes
+//@   variant json val=json
+//@   requires DocInv(doc(c.id, key)) && HlcInv(doc(c.id, key)) && IntOK(doc(c.id, key))
+//@   requires !isnull(rawof(val))
+//@   ensures [C01,C14:Set.delegates] count("call:Collection.set") <= 1 && (count("call:Collection.set") == 1 ==> callarg("Collection.set", 0) == c && callarg("Collection.set", 1) == key && callarg("Collection.set", 2) == exp && callarg("Collection.set", 3) == opts && callarg("Collection.set", 4) == rawof(val) && callarg("Collection.set", 5) && err == callret("Collection.set", 0))
+//@   ensures [C01:Set.encode-error] count("call:Collection.set") == 0 ==> err != nil
+//@ fn (*Collection).SetRaw
+//@   nullable opts
+//@   requires DocInv(doc(c.id, key)) && HlcInv(doc(c.id, key)) && IntOK(doc(c.id, key))
+//@   requires !isnull(val)
+//@   ensures [C01,C14:SetRaw.delegates] count("call:Collection.set") == 1 && callarg("Collection.set", 0) == c && callarg("Collection.set", 1) == key && callarg("Collection.set", 2) == exp && callarg("Collection.set", 3) == opts && callarg("Collection.set", 4) == val && !callarg("Collection.set", 5) && err == callret("Collection.set", 0)
+//@ fn (*Collection).Remove
+//@   requires DocInv(doc(c.id, key)) && HlcInv(doc(c.id, key)) && IntOK(doc(c.id, key))
+//@   ensures [C01,C02,C05:Remove.delegates] count("call:Collection.remove") == 1 && callarg("Collection.remove", 0) == c && callarg("Collection.remove", 1) == key && callarg("Collection.remove", 2) != nil && *callarg("Collection.remove", 2) == cas && casOut == callret("Collection.remove", 0) && err == callret("Collection.remove", 1)
+//@ fn (*Collection).Touch
+//@   requires DocInv(doc(c.id, key)) && HlcInv(doc(c.id, key)) && IntOK(doc(c.id, key))
+//@   ensures [C01,C14:Touch.delegates] count("call:Collection.GetAndTouchRaw") == 1 && callarg("Collection.GetAndTouchRaw", 0) == c && callarg("Collection.GetAndTouchRaw", 1) == key && callarg("Collection.GetAndTouchRaw", 2) == exp && cas == callret("Collection.GetAndTouchRaw", 1) && err == callret("Collection.GetAndTouchRaw", 2)
+//@ fn (*Collection).SetWithMeta
+//@   requires DocInv(doc(c.id, key)) && IntOK(doc(c.id, key))
+//@   requires validX(xattrs) && newCas >= 1
+//@   requires !isnull(body)
+//@   ensures [C01,C02,C05,C12,C14:SetWithMeta.delegates] count("call:Collection.writeWithMeta") == 1 && callarg("Collection.writeWithMeta", 0) == c && callarg("Collection.writeWithMeta", 1) == key && callarg("Collection.writeWithMeta", 2) == body && callarg("Collection.writeWithMeta", 3) == xattrs && callarg("Collection.writeWithMeta", 4) == oldCas && callarg("Collection.writeWithMeta", 5) == newCas && callarg("Collection.writeWithMeta", 6) == exp && (callarg("Collection.writeWithMeta", 7) <==> bit(datatype, 1)) && !callarg("Collection.writeWithMeta", 8) && result == callret("Collection.writeWithMeta", 0)
+//@ fn (*Collection).DeleteWithMeta
+//@   requires DocInv(doc(c.id, key)) && IntOK(doc(c.id, key))
+//@   requires validX(xattrs) && newCas >= 1
+//@   ensures [C01,C02,C05,C14:DeleteWithMeta.delegates] count("call:Collection.writeWithMeta") == 1 && callarg("Collection.writeWithMeta", 0) == c && callarg("Collection.writeWithMeta", 1) == key && isnull(callarg("Collection.writeWithMeta", 2)) && callarg("Collection.writeWithMeta", 3) == xattrs && callarg("Collection.writeWithMeta", 4) == oldCas && callarg("Collection.writeWithMeta", 5) == newCas && callarg("Collection.writeWithMeta", 6) == exp && !callarg("Collection.writeWithMeta", 7) && callarg("Collection.writeWithMeta", 8) && result == callret("Collection.writeWithMeta", 0)
+//@ fn (*Collection).SubdocInsert
+//@   ensures [C02,C18:SubdocInsert.delegates] count("call:Collection.subdocWrite") == 1 && callarg("Collection.subdocWrite", 0) == c && callarg("Collection.subdocWrite", 1) == key && callarg("Collection.subdocWrite", 2) == subdocKey && callarg("Collection.subdocWrite", 3) == cas && callarg("Collection.subdocWrite", 5) && err == callret("Collection.subdocWrite", 1)
+
+// ---------------------------------------------------------------------------------------------------------------
 // collection.go: writers
 
 //@ fn (*Collection).add
+//@   modular in=AddRaw,Add
 //@   let r = old(doc(c.id, key))
 //@   let r2 = doc(c.id, key)
 //@   requires DocInv(r) && HlcInv(r)
@@ -104,6 +165,7 @@ package rosmar
 //@   mustfail [C06:add.mf]    added
 //@
 //@ fn (*Collection).set
+//@   modular in=SetRaw,Set
 //@   let r = old(doc(c.id, key))
 //@   let r2 = doc(c.id, key)
 //@   let keep = opts != nil && opts.PreserveExpiry && r.present
@@ -114,6 +176,7 @@ package rosmar
 //@   ensures [C01,C14:set.stored] err == nil ==> sameDoc(r2, BODY(r, val, b2i(isJSON), (if keep then r.exp else absexp(exp, now)), newCas))
 //@
 //@ fn (*Collection).remove
+//@   modular in=Remove
 //@   let r = old(doc(c.id, key))
 //@   let r2 = doc(c.id, key)
 //@   requires DocInv(r) && HlcInv(r)
@@ -127,6 +190,7 @@ package rosmar
 //@   ensures [C05:remove.sysxattrs] err == nil ==> forall k: Str :: xget(r2.xattrs, k) == (if issys(k) then xget(r.xattrs, k) else NOX)
 //@
 //@ fn (*Collection).GetAndTouchRaw
+//@   modular in=Touch
 //@   let r = old(doc(c.id, key))
 //@   let r2 = doc(c.id, key)
 //@   requires DocInv(r) && HlcInv(r)
@@ -199,6 +263,7 @@ package rosmar
 //@   ensures [C11:setLastCas.frame]        docs == old(docs) && (forall i: Int :: i != c.id ==> collLast(i) == old(collLast(i)))
 //@
 //@ fn (*Collection).writeWithMeta
+//@   modular in=SetWithMeta,DeleteWithMeta
 //@   let r = old(doc(c.id, key))
 //@   let r2 = doc(c.id, key)
 //@   let cur = if r.present then r.cas else 0
@@ -320,11 +385,6 @@ package rosmar
 //@   ensures [C08,C15:queue.pull.oldest] !listnil(q.list) ==> count("list.back") == 1 && count("list.removeback") == 1 && count("list.pushfront") == 0
 //@   ensures [C16:queue.pull.closed]     listnil(q.list) ==> result == nil && count("list.removeback") == 0
 //@   ensures [C20:queue.pull.unlocked]   any: nolocks()
-//@
-//@ fn (*Collection).Set
-//@   modular
-//@   flag modifies=db
-//@   ensures [C01:Set.err-unchanged] err != nil ==> db == old(db)
 //@
 //@ fn (*Collection).Get
 //@   requires DocInv(doc(c.id, key))
@@ -719,6 +779,7 @@ package rosmar
 //@   ensures [C18:parseSubdocPath.nonempty] result1 == nil ==> len(result0) >= 1
 //@
 //@ fn (*Collection).subdocWrite
+//@   modular in=SubdocInsert,WriteSubDoc
 //@   loop 1 invariant [C18:subdocWrite.loop] true
 //@   loop 1 body [C02,C18:subdocWrite.retry-only-without-cas] cas == 0 && iter("call:Collection.WriteCas") == 1 && iscasmismatch(callret("Collection.WriteCas", 1))
 //@   ensures [C02,C18:subdocWrite.cas-honoured]   cas != 0 && count("call:Collection.Get") >= 1 && callret("Collection.Get", 0) != cas && callret("parseSubdocPath", 1) == nil ==> err != nil && iter("call:Collection.WriteCas") == 0
